@@ -12,18 +12,19 @@ SAN_ENV = dict(ASAN_OPTIONS="detect_leaks=0:abort_on_error=1:allocator_may_retur
 
 class Run:
     """one harness execution: configuration + harness source + arguments"""
-    def __init__(self, cfg, src, args=(), group="main", label=None, kind="bex", extra_sources=(), extra_cflags=(), extra_ldflags=None, env=None, timeout=None, common=None):
+    def __init__(self, cfg, src, args=(), group="main", label=None, kind="bex", extra_sources=(), extra_cflags=(), extra_ldflags=None, env=None, timeout=None, common=None, instrument_harness=True):
         self.cfg, self.src, self.args, self.group, self.kind = cfg, src, list(args), group, kind
         self.label = label or (os.path.basename(src) + ":" + cfg.tag())
         self.extra_sources, self.extra_cflags = list(extra_sources), list(extra_cflags)
         self.extra_ldflags = WRAP if extra_ldflags is None else list(extra_ldflags)
         self.env = env or {}
         self.common = COMMON if common is None else list(common)
+        self.instrument_harness = instrument_harness
         self.timeout = timeout
 
     def build(self):
         name = os.path.basename(self.src).replace(".c", "")
-        return build.harness(self.cfg, self.common + [self.src] + self.extra_sources, name, extra_cflags=self.extra_cflags, extra_ldflags=self.extra_ldflags)
+        return build.harness(self.cfg, self.common + [self.src] + self.extra_sources, name, extra_cflags=self.extra_cflags, extra_ldflags=self.extra_ldflags, instrument_harness=self.instrument_harness)
 
     def describe(self):
         return dict(config=dict(self.cfg), src=self.src, args=self.args, label=self.label)
@@ -104,6 +105,24 @@ def run_property(pid, spec, tier, seed, deadline=None):
             f, res = v["f"], v["res"]
             r = res["_run"]
             # confirm by replaying the single case twice in fresh processes
+            if r.kind == "icb":
+                sidx, rest = f["id"].split(":", 1)
+                sched = f["id"].split("|schedule=", 1)[-1]
+                sched = "" if sched == "(default)" else sched
+                outs = []
+                for rep in range(2):
+                    pr = subprocess.run([res["_exe"]] + r.args + ["--replay=%s:%s" % (sidx, sched)], capture_output=True, text=True)
+                    outs.append((pr.returncode, pr.stdout.splitlines()[0] if pr.stdout else ""))
+                if outs[0] != outs[1] or outs[0][0] != 1:
+                    raise HarnessError("replay of schedule %s did not reproduce the failure %s deterministically: %r" % (f["id"][:200], key, outs))
+                n = len(violations)
+                path = os.path.join(VERIF, "out", "replay", "%s-%d.json" % (pid, n))
+                json.dump(dict(property=pid, tier=tier, seed=seed, engine="icb", run=r.describe(), scenario=f["id"].split("|schedule=")[0], schedule=sched, clause=f["clause"], msg=f["msg"], occurrences=v["count"],
+                               replay_argv=[res["_exe"]] + r.args + ["--replay=%s:%s" % (sidx, sched)], replay_cmd="bin/replay %s" % path), open(path, "w"), indent=1)
+                violations.append(dict(sig=f["sig"], clause=f["clause"], id=f["id"][:300], msg=f["msg"], count=v["count"], replay=path))
+                lines.append("VIOLATION property=%s replay=%s" % (pid, path))
+                lines.append("  # %s | %s | %s : %s (x%d)" % (f["sig"], f["clause"], f["id"][:200], f["msg"], v["count"]))
+                continue
             if r.kind == "fsx":
                 outs = []
                 for rep in range(2):
